@@ -13,7 +13,7 @@ from ..run import hyp_search, mix
 RULE = ('(a) name layer, enumerated completely: every element class x every schema child name and every schema '
         'attribute name (dot name derived from the ORACLE\'s name): unset read returns None, set-by-dot == explicit '
         'add_child / constructor keyword (same verdict, same text), read-back returns the stored child / value, '
-        '=None removes, =None on an unset attribute (by dot and by constructor keyword) is a silent no-op; undeclared names raise AttributeError on read and write.  (b) Hypothesis-drawn intent '
+        '=None removes, =None on an unset attribute (by dot and by constructor keyword) is a silent no-op; undeclared names raise AttributeError on read and write; for every repeatable child: with three same-named children the dot read returns the first one the serialisation shows, also after replace_child of the 2nd / 3rd, and =None then removes exactly that child (twin: explicit remove).  (b) Hypothesis-drawn intent '
         'sequences (child := value | instance | None, attribute := value | None, constructor keywords) executed '
         'once through the dot surface and once through add_child / replace_child / remove / value_ / constructor '
         'keywords; after every intent both elements must agree on exception-vs-success, exception type for child / '
@@ -130,6 +130,57 @@ def name_attr(el, q):
     return None
 
 
+def name_multi(el, child, which=1):
+    """several same-named children: the dot read returns the first one serialisation shows, also after an explicit
+    replace_child of a later one; xml_x = None removes that same child (twin: explicit remove of the first)"""
+    s = schema()
+    t = s.element_type[el]
+    inp = {'layer': 'multi', 'element': el, 'child': child, 'which': which}
+    dot = 'xml_' + py_name(child)
+    built = []
+    for _ in range(2):
+        r = call(fresh, el)
+        if not r.ok:
+            return None
+        e = r.value
+        kids = []
+        for i in range(3):
+            c = stub(child)
+            if not call(e.add_child, c).ok:
+                return None        # not repeatable here: nothing to compare
+            kids.append(c)
+        built.append((e, kids))
+    (a, ka), (b, kb) = built
+
+    def first_shown(e):
+        r = call(e.get_children, True)
+        same = [c for c in (r.value if r.ok else []) if c.name == child]
+        return same[0] if same else None
+    if [c.name for c in call(a.get_children, True).value] != [child] * 3 or first_shown(a) is not ka[0]:
+        return None            # the matcher re-ordered same-named children: C12's subject
+    r = call(getattr, a, dot)
+    if not r.ok or r.value is not first_shown(a):
+        return F('dot-read-not-the-first-shown-child', t, inp, r.verdict() if not r.ok else 'another child', site=r.site)
+    for e, kids in built:
+        if not call(e.replace_child, kids[which], stub(child)).ok:
+            return None
+    if first_shown(a) is not ka[0]:
+        return None            # replace_child moved children in the schema-ordered view: C06's subject
+    r = call(getattr, a, dot)
+    if not r.ok or r.value is not ka[0]:
+        return F('dot-read-not-the-first-shown-child', t, dict(inp, after='replace_child of a later same-named child'),
+                 r.verdict() if not r.ok else 'child %s' % (
+                     [i for i, c in enumerate(call(a.get_children, True).value) if c is r.value] or ['not shown']),
+                 site=r.site)
+    r1 = call(setattr, a, dot, None)
+    r2 = call(b.remove, kb[0])
+    if r1.ok != r2.ok or snapshot(a) != snapshot(b):
+        return F('dot-none-differs-from-remove', t, dict(inp, after='replace_child of a later same-named child'),
+                 {'dot': r1.verdict(), 'explicit': r2.verdict(), 'dot-state': snapshot(a).get('string'),
+                  'explicit-state': snapshot(b).get('string')})
+    return None
+
+
 def name_unknown(el, _):
     s = schema()
     t = s.element_type[el]
@@ -240,6 +291,8 @@ def replay_case(rec):
         return name_attr(inp['element'], inp['attribute'])
     if inp['layer'] == 'unknown-name':
         return name_unknown(inp['element'], None)
+    if inp['layer'] == 'multi':
+        return name_multi(inp['element'], inp['child'], inp.get('which', 1))
     return check_sequence(inp['element'], inp['ctor'], inp['intents'])
 
 
@@ -251,6 +304,7 @@ def shards(ctx):
         if s.content_kind(t) == 'elements':
             for c in s.alphabet(t):
                 obs.append(('child', el, c))
+                obs.append(('multi', el, c))
         for a in s.attributes_of(t):
             obs.append(('attr', el, a['qname']))
         obs.append(('unknown', el, None))
@@ -263,7 +317,8 @@ def shards(ctx):
 def run_shard(ctx, shard, acc):
     s = schema()
     if shard['mode'] == 'names':
-        fn = {'child': name_child, 'attr': name_attr, 'unknown': name_unknown}
+        fn = {'child': name_child, 'attr': name_attr, 'unknown': name_unknown,
+              'multi': lambda el, x: name_multi(el, x, 1) or name_multi(el, x, 2)}
         for kind, el, x in shard['obs']:
             acc.case({'layer': kind, 'element': el, 'name': x}, True)
             acc.count('name-' + kind)
